@@ -524,7 +524,14 @@ def run_case(ctx, repo, case):
             try:
                 r2 = rec + sh if how == "r+d" else (
                     sh + rec if how == "d+r" else rec - sh)
-            except ValueError:
+            except (ValueError, OverflowError):
+                # (a month/year shift may move the two anchors of a
+                # start/second-point pair written in different
+                # representations by different amounts and invert them: the
+                # constructor refuses that - and, for a year below 0 written
+                # without expanded digits, fails to print its own message:
+                # OverflowError from str(); shifting is C14's subject and
+                # only for exact shifts)
                 return
             ctx.case_rec_id = id(r2)
             ctx.case_given_anchor = None
